@@ -7,6 +7,7 @@ import Req.C02.H1Full
 import Req.C02.H3Recv
 import Req.C02.H2Recv
 import Req.C02.H2Repair
+import Req.C02.H2GoAway
 import Req.C02.TrailerMap
 import Req.C02.ReadLine
 import Req.C02.DataBuffer
@@ -231,6 +232,7 @@ def h2ErrStr : Option H2Err → String
   | some .eof => "eof" | some .unexpectedEOF => "unexpectedEOF" | some .overDeclared => "overDeclared"
   | some .streamProto => "streamProto" | some .connProto => "connProto" | some .rst => "rst"
   | some .closedBody => "closedBody" | some .pipeWrite => "pipeWrite"
+  | some .goAwayRetry => "goAwayRetry" | some .goAwayErr => "goAwayErr"
 
 /-- event: `H;<es 0|1>;<fields>` | `D;<es>;<padded 0|1>;<hex>` | `R` -/
 def decodeH2Ev (s : String) : Option H2Ev :=
@@ -273,6 +275,52 @@ def laneH2Recv : List String → String
             | k => ([], (if reads.isEmpty then none else k.readFixed), s.resTrailer)
           "status=" ++ toString res.status ++ " hdr=" ++ kvStr (res.fields.filter keepField) ++
             " err=" ++ h2ErrStr err ++ " data=" ++ encodeHex data ++ " trailer=" ++ kvStr tr
+    | _, _, _ => "bad-op"
+  | _ => "bad-op"
+
+/-- connection event: a stream event of `decodeH2Ev` (on the stream under test) |
+`G;<last-stream-id>;<error code>` | `N;<kind>` (PING, PING ack, SETTINGS, WINDOW_UPDATE(0), extension) |
+`O;<id>;<stream event>` (a frame of another stream) -/
+def decodeCEv (sid : Nat) (s : String) : Option CEv :=
+  match s.splitOn ";" with
+  | ["G", last, code] => do pure (CEv.goAway (← last.toNat?) (← code.toNat?))
+  | ["N", k] => do pure (CEv.neutral (← k.toNat?))
+  | "O" :: id :: rest => do pure (CEv.frame (← id.toNat?) (← decodeH2Ev (";".intercalate rest)))
+  | _ => (decodeH2Ev s).map (CEv.frame sid)
+
+def decodeCEvs (sid : Nat) (s : String) : Option (List CEv) :=
+  if s == "none" then some [] else (s.splitOn "/").mapM (decodeCEv sid)
+
+/-- `c02h2goaway <stream id> <head 0|1> <connection events> <reads>`: all frames go through the
+connection's dispatch (`H2Conn.event`: GOAWAY → `setGoAway`), then the caller reads.
+→ as `c02h2recv` -/
+def laneH2GoAway : List String → String
+  | [sid, hd, evs, reads] =>
+    match sid.toNat?, hd.toList, decodeNatList reads with
+    | some sid, [c], some reads =>
+      match parseBool01 c, decodeCEvs sid evs with
+      | some isHead, some evs =>
+        let conn := evs.foldl (fun c e => c.event e) (H2Conn.single sid (H2Stream.init isHead))
+        match conn.streams sid with
+        | none => "bad-op"
+        | some s0 =>
+          let s := s0.lenRepair
+          -- an abort before the head was delivered fails RoundTrip; the stream is then forgotten and
+          -- whatever the peer still sends on it is dropped
+          match s.headErr, s.res with
+          | some e, _ => "error:" ++ h2ErrStr (some e)
+          | none, none => "error:" ++ h2ErrStr (some .connProto)
+          | none, some res =>
+            let (data, err, tr) :=
+              match res.body with
+              | .piped =>
+                let (rs, s') := s.runReads reads
+                let lastErr := match rs.getLast? with | some (_, e) => e | none => none
+                ((rs.map (·.1)).flatten, lastErr, s'.resTrailer)
+              | k => ([], (if reads.isEmpty then none else k.readFixed), s.resTrailer)
+            "status=" ++ toString res.status ++ " hdr=" ++ kvStr (res.fields.filter keepField) ++
+              " err=" ++ h2ErrStr err ++ " data=" ++ encodeHex data ++ " trailer=" ++ kvStr tr
+      | _, _ => "bad-op"
     | _, _, _ => "bad-op"
   | _ => "bad-op"
 
@@ -415,6 +463,7 @@ def lanes : List (String × (List String → String)) := [
   ("c02call", laneCall),
   ("c02ops", laneOps),
   ("c02h2recv", laneH2Recv),
+  ("c02h2goaway", laneH2GoAway),
   ("c02h3recv", laneH3Recv),
   ("c02h1msg", laneH1Msg),
   ("c02h1full", laneH1Full),
